@@ -1,2 +1,305 @@
-(* C08 — placeholder while the model is being tied to the code; statements follow. *)
-From GV Require Import Prelude.Base Model.Codec Model.RefMap.
+(* C08 — Values survive storage unchanged; gaps use the format's no-data codes.
+   Only statements, each closed by [exact] and followed by Print Assumptions.
+   [Repaired] = the code with fixes/C08-*.patch applied (what the correspondence ties the model to);
+   [Old] = the tree as shipped, kept for the refutations that document the defects.                                  *)
+From GV Require Import Prelude.Base Model.Codec Model.RefMap Proofs.CodecProofs Proofs.RefMapProofs.
+
+Local Open Scope Z_scope.
+
+(* ====================================================================== float data *)
+(* every float array without the sentinel: the value held after the write, the dataset (float64, NaN replaced by
+   FLOAT_NDV, nothing else touched) and the value after re-open (NaN again) — token for token; shorter arrays are
+   completed with NaN *)
+Theorem C08_float_roundtrip : forall w d a n l,
+  ~ In FNdv l -> len_ok a n (length l) -> (1 <= n)%nat ->
+  let l' := padded l n FNaN in
+  run_num w CFloat a n (AFlt d l) = ODone (VF l') (RF64 (map enc_f l')) (VF l').
+Proof. exact float_roundtrip. Qed.
+Print Assumptions C08_float_roundtrip.
+
+(* the element codec: v <> FNdv -> read (write v) = v; NaN is the only value written as the code; no NaN reaches the file *)
+Theorem C08_float_codes : forall v,
+  (v <> FNdv -> dec_f (enc_f v) = v) /\ (v <> FNdv -> (enc_f v = FNdv <-> v = FNaN)) /\ enc_f v <> FNaN.
+Proof. intros v. split; [apply dec_enc_f | split; [apply enc_f_ndv_iff | apply enc_f_not_nan]]. Qed.
+Print Assumptions C08_float_codes.
+
+(* the documented exception, exactly: the sentinel itself is kept in memory and on file and reads back as NaN *)
+Theorem C08_float_ndv_exception : forall w,
+  run_num w CFloat AVertex 1 (AFlt F64 [FNdv]) = ODone (VF [FNdv]) (RF64 [FNdv]) (VF [FNaN]).
+Proof. intros []; reflexivity. Qed.
+Print Assumptions C08_float_ndv_exception.
+
+Example C08_float_nonvacuous :
+  run_num Repaired CFloat AVertex 4 (AFlt F32 [FNaN; FFrac 4591870180066957722; FInf true])
+  = ODone (VF [FNaN; FFrac 4591870180066957722; FInf true; FNaN])
+          (RF64 [FNdv; FFrac 4591870180066957722; FInf true; FNdv])
+          (VF [FNaN; FFrac 4591870180066957722; FInf true; FNaN]).
+Proof. reflexivity. Qed.
+
+(* ====================================================================== integer / referenced data *)
+Theorem C08_int_roundtrip_in_range : forall c d a n l,
+  is_intcls c -> Forall in_int32 l -> len_ok a n (length l) -> (1 <= n)%nat ->
+  let l' := padded l n INTEGER_NDV in
+  run_num Repaired c a n (AInt d l) = ODone (VI l') (RI32 l') (VI l').
+Proof. exact int_roundtrip_in_range. Qed.
+Print Assumptions C08_int_roundtrip_in_range.
+
+(* full strength: whatever integer array is accepted reads back identical (gaps = INTEGER_NDV) ... *)
+Theorem C08_int_accepted_identical : int_full Repaired.
+Proof. exact int_full_repaired. Qed.
+Print Assumptions C08_int_accepted_identical.
+
+(* ... REFUTED for the code as shipped: int64 2^31 is accepted and stored as -2^31 (witness replayed: corpus/C08) *)
+Theorem C08_int_old_refuted : ~ int_full Old.
+Proof. exact int_old_refuted. Qed.
+Print Assumptions C08_int_old_refuted.
+
+Theorem C08_int_out_of_range_rejected : forall c d a n l,
+  is_intcls c -> ~ Forall in_int32 l -> store Repaired c a n (AInt d l) = Err ValueErr.
+Proof. exact int_out_of_range_rejected. Qed.
+Print Assumptions C08_int_out_of_range_rejected.
+
+(* a float array with a non-integral element (the float sentinel counts) is refused by both versions *)
+Theorem C08_int_rejects_fractional : forall w c d a n l v,
+  is_intcls c -> In v l -> has_frac v = true ->
+  store w c a n (AFlt d l) = Err (if too_long a n (length l) then ValueErr else TypeErr).
+Proof. exact int_rejects_fractional. Qed.
+Print Assumptions C08_int_rejects_fractional.
+
+Theorem C08_int_rejects_infinite : forall c d a n l s,
+  is_intcls c -> In (FInf s) l -> exists e, store Repaired c a n (AFlt d l) = Err e.
+Proof. exact int_rejects_infinite. Qed.
+Print Assumptions C08_int_rejects_infinite.
+
+(* integral floats within range (NaN = gap -> INTEGER_NDV, -0.0 -> 0) *)
+Theorem C08_int_from_float_roundtrip : forall c d a n l,
+  is_intcls c -> d <> F16 -> Forall fl_int_ok l -> len_ok a n (length l) -> (1 <= n)%nat ->
+  let l' := padded (map fl2z l) n INTEGER_NDV in
+  run_num Repaired c a n (AFlt d l) = ODone (VI l') (RI32 l') (VI l').
+Proof. exact int_from_float_roundtrip. Qed.
+Print Assumptions C08_int_from_float_roundtrip.
+
+Example C08_int_nonvacuous :
+  run_num Repaired CReferenced AVertex 3 (AInt U32 [2147483647; 0]) = ODone (VI [2147483647; 0; -2147483648]) (RI32 [2147483647; 0; -2147483648]) (VI [2147483647; 0; -2147483648])
+  /\ run_num Repaired CInteger AVertex 2 (AFlt F64 [FNaN; FNegZero]) = ODone (VI [-2147483648; 0]) (RI32 [-2147483648; 0]) (VI [-2147483648; 0])
+  /\ store Repaired CInteger AVertex 1 (AInt I64 [2147483648]) = Err ValueErr
+  /\ store Old CInteger AVertex 1 (AInt I64 [2147483648]) = Ok (VI [-2147483648], RI32 [-2147483648]).
+Proof. repeat split. Qed.
+
+(* ====================================================================== boolean data *)
+Theorem C08_bool_roundtrip : forall w a n l,
+  len_ok a n (length l) -> (1 <= n)%nat ->
+  let l' := padded l n false in
+  run_num w CBoolean a n (ABool l) = ODone (VB l') (RI8 (map b2z l')) (VB l').
+Proof. exact bool_roundtrip. Qed.
+Print Assumptions C08_bool_roundtrip.
+
+Theorem C08_bool_only_01 : forall w a n x v r,
+  store w CBoolean a n x = Ok (v, r) ->
+  exists bl, v = VB bl /\ r = RI8 (map b2z bl) /\ Forall (fun z => z = 0 \/ z = 1) (map b2z bl).
+Proof. exact bool_only_01. Qed.
+Print Assumptions C08_bool_only_01.
+
+Theorem C08_bool_rejects_non01 :
+  (forall w d a n l z, In z l -> z <> 0 -> z <> 1 -> store w CBoolean a n (AInt d l) = Err ValueErr)
+  /\ (forall w d a n l v, In v l -> is_nan v = false -> is01_f v = false -> store w CBoolean a n (AFlt d l) = Err ValueErr).
+Proof. split; [exact bool_rejects_non01_int | exact bool_rejects_non01_float]. Qed.
+Print Assumptions C08_bool_rejects_non01.
+
+Example C08_bool_nonvacuous :
+  run_num Repaired CBoolean AVertex 3 (AFlt F64 [FInt 1; FNaN]) = ODone (VB [true; false; false]) (RI8 [1; 0; 0]) (VB [true; false; false])
+  /\ store Repaired CBoolean AVertex 2 (AInt I64 [0; 2]) = Err ValueErr.
+Proof. split; reflexivity. Qed.
+
+(* ====================================================================== length, type, dtype *)
+Theorem C08_too_long_rejected : forall w c n x,
+  (n < alen x)%nat -> store w c AVertex n x = Err ValueErr.
+Proof. exact too_long_rejected. Qed.
+Print Assumptions C08_too_long_rejected.
+
+Theorem C08_unsupported_type_rejected :
+  (forall w c a n, store w c a n AObj = Err TypeErr)
+  /\ (forall c a n l, c <> CBoolean -> exists e, store Repaired c a n (ACplx l) = Err e)
+  /\ (forall w a n l, length l = n -> store w CFloat a n (ABool l) = Err TypeErr)
+  /\ (forall l, infer (ACplx l) = Err NotImplementedErr) /\ infer AObj = Err NotImplementedErr.
+Proof. exact unsupported_type_rejected. Qed.
+Print Assumptions C08_unsupported_type_rejected.
+
+(* REFUTED for the code as shipped: FloatData takes a complex array and drops the imaginary part *)
+Theorem C08_complex_old_refuted : ~ complex_rejected Old.
+Proof. exact complex_rejected_old_refuted. Qed.
+Print Assumptions C08_complex_old_refuted.
+
+Theorem C08_complex_rejected : complex_rejected Repaired.
+Proof. exact complex_rejected_repaired. Qed.
+Print Assumptions C08_complex_rejected.
+
+(* per class: the constructor held in memory, the dtype of the dataset, the codes in it *)
+Theorem C08_store_kind : forall w c a n x v r,
+  store w c a n x = Ok (v, r) ->
+  match c with
+  | CFloat => exists l, v = VF l /\ r = RF64 (map enc_f l) /\ ~ In FNaN (map enc_f l)
+  | CInteger | CReferenced => exists l, v = VI l /\ r = RI32 (map wrap32 l) /\ Forall in_int32 (map wrap32 l)
+  | CBoolean => exists l, v = VB l /\ r = RI8 (map b2z l)
+  end.
+Proof. exact store_kind. Qed.
+Print Assumptions C08_store_kind.
+
+(* ====================================================================== text *)
+(* under the codec law dec (enc s) = s *)
+Theorem C08_text_roundtrip : forall (enc : str -> option bytes) (dec : bytes -> option str),
+  (forall s b, enc s = Some b -> dec b = Some s) ->
+  forall w a n s b, enc s = Some b -> has_nul b = false ->
+  run_text enc dec w a n (TStr s) = TODone (TVStr s) (RTVlen [b]) (TVStr s).
+Proof. exact text_roundtrip_str. Qed.
+Print Assumptions C08_text_roundtrip.
+
+Theorem C08_text_roundtrip_arr : forall (enc : str -> option bytes) (dec : bytes -> option str),
+  (forall s b, enc s = Some b -> dec b = Some s) ->
+  forall w a n l bs,
+  l <> [] -> map enc l = map Some bs -> existsb has_nul bs = false -> len_ok a n (length l) ->
+  exists v', run_text enc dec w a n (TArrU l) = TODone (TVArrU l) (RTVlen bs) v' /\ items v' = l.
+Proof. exact text_roundtrip_arr. Qed.
+Print Assumptions C08_text_roundtrip_arr.
+
+Theorem C08_text_roundtrip_bytes : forall (enc : str -> option bytes) (dec : bytes -> option str),
+  (forall s b, enc s = Some b -> dec b = Some s) ->
+  forall w a n b s b', dec b = Some s -> enc s = Some b' -> has_nul b' = false ->
+  run_text enc dec w a n (TBytes b) = TODone (TVStr s) (RTVlen [b']) (TVStr s).
+Proof. exact text_roundtrip_bytes. Qed.
+Print Assumptions C08_text_roundtrip_bytes.
+
+Theorem C08_text_rejections : forall (enc : str -> option bytes) (dec : bytes -> option str),
+  (forall w a n, run_text enc dec w a n TOther = TOStoreErr ValueErr)
+  /\ (forall w a n s, enc s = None -> run_text enc dec w a n (TStr s) = TOStoreErr UnicodeEncodeErr)
+  /\ (forall w a n s b, enc s = Some b -> has_nul b = true -> run_text enc dec w a n (TStr s) = TOStoreErr ValueErr)
+  /\ (forall w a n b, dec b = None -> run_text enc dec w a n (TBytes b) = TOStoreErr UnicodeDecodeErr)
+  /\ (forall n l, (n < length l)%nat -> run_text enc dec Repaired AVertex n (TArrU l) = TOStoreErr ValueErr)
+  /\ (forall a n l, all_some (map dec l) = None -> run_text enc dec Repaired a n (TArrS l) = TOStoreErr UnicodeDecodeErr).
+Proof. exact text_rejections. Qed.
+Print Assumptions C08_text_rejections.
+
+(* the codec law holds of the model's RFC 3629 codec (whose bytes the correspondence compares with CPython's) ... *)
+Theorem C08_utf8_roundtrip : forall s b, utf8_enc s = Some b -> utf8_dec b = Some s.
+Proof. exact utf8_dec_enc. Qed.
+Print Assumptions C08_utf8_roundtrip.
+
+(* ... so for every string of Unicode scalar values without NUL, with no hypothesis left: *)
+Theorem C08_text_roundtrip_utf8 : forall w a n s,
+  valid_text s ->
+  exists b, utf8_enc s = Some b /\ run_text utf8_enc utf8_dec w a n (TStr s) = TODone (TVStr s) (RTVlen [b]) (TVStr s).
+Proof. exact text_roundtrip_utf8. Qed.
+Print Assumptions C08_text_roundtrip_utf8.
+
+Theorem C08_text_roundtrip_arr_utf8 : forall w a n l,
+  l <> [] -> Forall valid_text l -> len_ok a n (length l) ->
+  exists bs v', map utf8_enc l = map Some bs
+    /\ run_text utf8_enc utf8_dec w a n (TArrU l) = TODone (TVArrU l) (RTVlen bs) v' /\ items v' = l.
+Proof. exact text_roundtrip_arr_utf8. Qed.
+Print Assumptions C08_text_roundtrip_arr_utf8.
+
+Example C08_text_nonvacuous :
+  valid_text [233; 128512; 65535]%N
+  /\ run_text utf8_enc utf8_dec Repaired AObject 1 (TStr [233; 128512; 65535]%N)
+     = TODone (TVStr [233; 128512; 65535]%N) (RTVlen [[195; 169; 240; 159; 152; 128; 239; 191; 191]%N]) (TVStr [233; 128512; 65535]%N)
+  /\ run_text utf8_enc utf8_dec Repaired AObject 1 (TStr [55296]%N) = TOStoreErr UnicodeEncodeErr.
+Proof.
+  split; [|split; reflexivity]. split; [repeat constructor|]. simpl. intros [H|[H|[H|[]]]]; discriminate H.
+Qed.
+
+(* REFUTED for the code as shipped: more strings than vertices are accepted; invalid UTF-8 bytes are stored and the
+   entity can no longer be read.  Both hold of the repaired code. *)
+Theorem C08_text_too_long_old_refuted : ~ text_too_long_rejected Old.
+Proof. exact text_too_long_old_refuted. Qed.
+Print Assumptions C08_text_too_long_old_refuted.
+
+Theorem C08_text_too_long_rejected : text_too_long_rejected Repaired.
+Proof. exact text_too_long_rejected_repaired. Qed.
+Print Assumptions C08_text_too_long_rejected.
+
+Theorem C08_text_bytes_old_refuted : ~ text_bytes_readable Old.
+Proof. exact text_bytes_readable_old_refuted. Qed.
+Print Assumptions C08_text_bytes_old_refuted.
+
+Theorem C08_text_bytes_readable : text_bytes_readable Repaired.
+Proof. exact text_bytes_readable_repaired. Qed.
+Print Assumptions C08_text_bytes_readable.
+
+(* ====================================================================== file blobs *)
+Theorem C08_blob_roundtrip : forall b, b <> [] -> blob_store (FBytes b) = Ok b /\ blob_fetch false b = Some b.
+Proof. exact blob_roundtrip. Qed.
+Print Assumptions C08_blob_roundtrip.
+
+(* REFUTED (open finding file-named-Data): a file called "Data" replaces the dataset holding its name *)
+Theorem C08_blob_named_Data_refuted : ~ blob_full.
+Proof. exact blob_full_refuted. Qed.
+Print Assumptions C08_blob_named_Data_refuted.
+
+(* ====================================================================== reference value maps *)
+(* key 0 is "Unknown" (or the map is the boolean map) after the constructor and after every sequence of assignments,
+   refused ones included *)
+Theorem C08_refmap_zero_unknown : forall w d ops m0,
+  mk w d = Ok m0 -> zero_ok (fst (apply_ops w m0 ops)).
+Proof. exact refmap_zero_unknown. Qed.
+Print Assumptions C08_refmap_zero_unknown.
+
+Theorem C08_refmap_keeps_labels : forall w d m k s,
+  dict_keys_nodup d -> mk w d = Ok m -> In (KInt k, LStr s) d -> lookup k m = Some s.
+Proof. exact mk_keeps_labels. Qed.
+Print Assumptions C08_refmap_keeps_labels.
+
+(* which assignments are refused, and that a refused entry refuses the whole dict; the boolean map is frozen *)
+Theorem C08_refmap_refusals :
+  (forall w d k v e, is_bool_dict d = false -> In (k, v) d -> validate w k v = Err e -> exists e', mk w d = Err e')
+  /\ (forall w m k v e, is_bool_map m = false -> validate w k v = Err e -> setitem w m k v = Err e)
+  /\ (forall w m k v, is_bool_map m = true -> setitem w m k v = Err AssertErr)
+  /\ (forall z v, z < 0 \/ KEY_MAX < z -> validate Repaired (KInt z) v = Err KeyErr)
+  /\ (forall v, validate Repaired KBad v = Err KeyErr)
+  /\ (forall z, 0 <= z <= KEY_MAX -> validate Repaired (KInt z) LBad = Err TypeErr)
+  /\ (forall s, s <> s_Unknown -> validate Repaired (KInt 0) (LStr s) = Err ValueErr).
+Proof.
+  repeat split.
+  - exact mk_refuses_invalid.
+  - exact setitem_refuses_invalid.
+  - exact bool_map_frozen.
+  - intros z v [H|H]; unfold validate.
+    + destruct (Z.ltb_spec z 0); [reflexivity | lia].
+    + destruct (Z.ltb_spec z 0); [reflexivity|]. destruct (Z.ltb_spec KEY_MAX z); [reflexivity | lia].
+  - intros z [H0 H1]. unfold validate. destruct (Z.ltb_spec z 0); [lia|]. destruct (Z.ltb_spec KEY_MAX z); [lia | reflexivity].
+  - intros s Hs. unfold validate. simpl. destruct (lN_eqb s s_Unknown) eqn:E; [apply lN_eqb_eq in E; contradiction | reflexivity].
+Qed.
+Print Assumptions C08_refmap_refusals.
+
+(* the map read back from the file is the map that was stored: every key with its label, key 0 included, nothing else *)
+Theorem C08_refmap_file_roundtrip : forall (enc : str -> option bytes) (dec : bytes -> option str),
+  (forall s b, enc s = Some b -> dec b = Some s) ->
+  forall m bs, wf m -> enc_all enc (map snd m) = Ok bs ->
+  write_map enc m = Ok (combine (map fst m) bs) /\ reopen_map dec Repaired (combine (map fst m) bs) = Ok m.
+Proof. exact refmap_file_roundtrip. Qed.
+Print Assumptions C08_refmap_file_roundtrip.
+
+Theorem C08_refmap_survives_file : forall (enc : str -> option bytes) (dec : bytes -> option str),
+  (forall s b, enc s = Some b -> dec b = Some s) ->
+  forall d ops m0 bs,
+  dict_keys_nodup d -> mk Repaired d = Ok m0 ->
+  let m := fst (apply_ops Repaired m0 ops) in
+  enc_all enc (map snd m) = Ok bs ->
+  run_map enc dec Repaired d ops = MODone m (snd (apply_ops Repaired m0 ops)) (combine (map fst m) bs) m.
+Proof. exact refmap_survives_file. Qed.
+Print Assumptions C08_refmap_survives_file.
+
+Theorem C08_refmap_file_identical : refmap_file_full Repaired.
+Proof. exact refmap_file_full_repaired. Qed.
+Print Assumptions C08_refmap_file_identical.
+
+(* REFUTED for the code as shipped: keys 1 and 2^32+1 share the 32-bit row key; after re-open key 1 carries the other label *)
+Theorem C08_refmap_old_refuted : ~ refmap_file_full Old.
+Proof. exact refmap_file_full_old_refuted. Qed.
+Print Assumptions C08_refmap_old_refuted.
+
+Example C08_refmap_nonvacuous :
+  exists m rows,
+    run_map utf8_enc utf8_dec Repaired [(KInt 3, LStr s_one)] [(KInt 0, LStr s_big); (KInt 3, LStr s_big); (KInt 4294967296, LStr s_one)]
+    = MODone m [Some ValueErr; None; Some KeyErr] rows m
+    /\ lookup 3 m = Some s_big /\ lookup 0 m = Some s_Unknown.
+Proof. do 2 eexists. split; [vm_compute; reflexivity|]. split; reflexivity. Qed.
